@@ -9,7 +9,7 @@
    implementation and by byte-exact correspondence of the session model, not by a theorem (DESIGN.md, C01). *)
 From Coq Require Import ZArith List Bool.
 From Coq Require String.
-Require Import PyLib SuiteTypes Crypto KeySchedule Packet Reassembly Decryptor TlsSession TlsRecords C01P Hs13P C01SessionP.
+Require Import PyLib SuiteTypes Crypto KeySchedule Packet Reassembly Decryptor TlsSession TlsRecords C01P Hs13P C01SessionP C01Session12P.
 Import ListNotations.
 Open Scope Z_scope.
 
@@ -158,3 +158,29 @@ Theorem C01_fresh_decryptor : forall a tag k ml bl exts comp chk chi shk shi cak
             switch_ready d true sak sai /\ switch_ready d false cak cai.
 Proof. exact fresh_decryptor. Qed.
 Print Assumptions C01_fresh_decryptor.
+
+(* TLS 1.2 with an AEAD suite (AES-GCM, AES-CCM, AES-CCM-8), behind the ServerHello, from the ChangeCipherSpec records on: each
+   direction sends its ChangeCipherSpec and then protected records -- Finished (type 22) and application data (type 23) in any mix,
+   the two directions interleaved in any way.  The session decrypts every protected record in step with its sender (the Finished
+   consumes sequence number 0), exports exactly the application contents as application data, in order and with their direction;
+   handshake records and ChangeCipherSpec only as metadata. *)
+Theorem C01_tls12_aead_session : forall C, CryptoLaws C -> forall tbl parts keylog a key_c salt_c key_s salt_s version tag,
+  len version = 2 -> 0 <= tag ->
+  forall evs s stc sts ccc scc stc' sts' rs,
+  Inv12 a key_c salt_c key_s salt_s tag s stc sts ccc scc (length evs) -> Forall ev12_ok evs -> ordered ccc scc evs ->
+  play12 C a key_c salt_c key_s salt_s version tag stc sts evs = Ok (stc', sts', rs) ->
+  exists s' out ccc' scc', session_run C tbl parts keylog s rs = Ok (s', out) /\ data_entries out = flat_map app_of evs /\
+                           Inv12 a key_c salt_c key_s salt_s tag s' stc' sts' ccc' scc' 0.
+Proof. exact tls12_aead_session. Qed.
+Print Assumptions C01_tls12_aead_session.
+
+(* the same for TLS 1.2 ChaCha20-Poly1305 (RFC 7905) *)
+Theorem C01_tls12_chacha_session : forall C, CryptoLaws C -> forall tbl parts keylog key_c iv_c key_s iv_s version tag,
+  len version = 2 -> 8 <= len iv_c -> 8 <= len iv_s ->
+  forall evs s stc sts ccc scc stc' sts' rs,
+  Chacha.Inv12 key_c iv_c key_s iv_s tag s stc sts ccc scc (length evs) -> Forall Chacha.ev12_ok evs -> Chacha.ordered ccc scc evs ->
+  Chacha.play12 C key_c iv_c key_s iv_s version stc sts evs = Ok (stc', sts', rs) ->
+  exists s' out ccc' scc', session_run C tbl parts keylog s rs = Ok (s', out) /\ Chacha.data_entries out = flat_map Chacha.app_of evs /\
+                           Chacha.Inv12 key_c iv_c key_s iv_s tag s' stc' sts' ccc' scc' 0.
+Proof. exact Chacha.tls12_chacha_session. Qed.
+Print Assumptions C01_tls12_chacha_session.
